@@ -23,7 +23,7 @@ import numpy as np
 import core
 
 LEAN_MODULE = "Optyx.Props.C13"
-EXTRA_MODULES = ["Optyx.Props.PinsC13", "Optyx.Props.StateTie"]   # transcription anchors (harness/source_pins.py)
+EXTRA_MODULES = ["Optyx.Props.PinsC13", "Optyx.Props.StateTie", "Optyx.Props.VarsTie"]   # transcription anchors (harness/source_pins.py)
 THEOREMS = [
     "Optyx.Props.C13.inv_init",
     "Optyx.Props.C13.inv_step",
@@ -39,6 +39,8 @@ THEOREMS = [
     "Optyx.Props.StateTie.subjectToBad_eq",
     "Optyx.Props.StateTie.getIsLinear_eq",
     "Optyx.Props.StateTie.readers_text",
+    "Optyx.Props.VarsTie.svsVisit_eq",
+    "Optyx.Props.VarsTie.svsFrame_text",
     "Optyx.Props.PinsC13.anchors",
 ]
 ASSUMPTIONS = [
